@@ -163,6 +163,25 @@ func matrixCases() []*Case {
 	d := base("account", 0, 5, 5, "valid")
 	d.Payload = "deactivate"
 	out = append(out, d)
+	// the jwk routes with a "kid" member inside the embedded jwk that names somebody else's key (its thumbprint
+	// is public), the requester's own, a deactivated account's, or nothing the server knows
+	for _, route := range []string{"newAccount", "revoke"} {
+		for _, req := range []int{0, 1, 2, 4} {
+			for _, jk := range []string{"self", "victim", "deact", "arb"} {
+				for _, pl := range []string{"valid", "onlyexisting"} {
+					if route == "revoke" && pl != "valid" {
+						continue
+					}
+					k := base(route, 0, req, (req+1)%3, "valid")
+					k.J.KeyMode, k.J.JwkKid, k.Payload = "jwk", jk, pl
+					if route == "revoke" {
+						k.J.SignWith, k.J.JwkOf = "cert", "cert"
+					}
+					out = append(out, k)
+				}
+			}
+		}
+	}
 	return out
 }
 
@@ -318,6 +337,18 @@ func shapeCorners() []*Case {
 			mk(route, func(k *Case) { k.J.KeyMode = "jwk"; k.J.JwkOf = "invalid" }),
 			mk(route, func(k *Case) { k.J.KeyMode = "jwk"; k.J.JwkAlg = "ES384" }),
 			mk(route, func(k *Case) { k.J.KeyMode = "jwk"; k.J.JwkAlg = "ES256" }),
+			// the embedded jwk carries a "kid" member of the client's choosing
+			mk(route, func(k *Case) { k.J.KeyMode = "jwk"; k.J.JwkKid = "self" }),
+			mk(route, func(k *Case) { k.J.KeyMode = "jwk"; k.J.JwkKid = "arb" }),
+			mk(route, func(k *Case) { k.J.KeyMode = "jwk"; k.J.JwkKid = "victim" }),
+			mk(route, func(k *Case) { k.J.KeyMode = "jwk"; k.J.JwkKid = "deact" }),
+			mk(route, func(k *Case) { k.Req = 4; k.J.KeyMode = "jwk"; k.J.JwkKid = "victim" }),
+			mk(route, func(k *Case) { k.Req = 4; k.J.KeyMode = "jwk"; k.J.JwkKid = "victim"; k.Payload = "onlyexisting" }),
+			mk(route, func(k *Case) { k.Req = 4; k.J.KeyMode = "jwk"; k.J.JwkKid = "deact" }),
+			mk(route, func(k *Case) { k.Req = 4; k.J.KeyMode = "jwk"; k.J.JwkKid = "self" }),
+			mk(route, func(k *Case) { k.Req = 4; k.J.KeyMode = "jwk"; k.J.JwkKid = "arb"; k.Payload = "onlyexisting" }),
+			mk(route, func(k *Case) { k.Req, k.Own = 4, 2; k.J.KeyMode = "jwk"; k.J.JwkKid = "victim" }),
+			mk(route, func(k *Case) { k.J.KeyMode = "jwk"; k.J.SignWith, k.J.JwkOf = "cert", "cert"; k.J.JwkKid = "victim" }),
 			mk(route, func(k *Case) { k.Req, k.Own = 1, 1 }),
 			mk(route, func(k *Case) { k.Req, k.Own = 1, 1; k.J.Alg = "PS256" }),
 			mk(route, func(k *Case) { k.Req, k.Own = 1, 1; k.J.Alg = "RS512" }),
@@ -396,7 +427,18 @@ func genShape(r *c.Rng) *Case {
 			k.J.JwkOf = c.Pick(r, []string{"rsa1024", "invalid", "fresh", "cert", "req"})
 		case 14:
 			k.J.KeyMode = "jwk"
-			k.J.JwkAlg = c.Pick(r, []string{"ES256", "ES384", "RS256", "EdDSA"})
+			if r.Chance(1, 2) {
+				k.J.JwkAlg = c.Pick(r, []string{"ES256", "ES384", "RS256", "EdDSA"})
+			} else {
+				k.J.JwkKid = c.Pick(r, []string{"self", "victim", "victim", "deact", "arb"})
+				if r.Chance(1, 2) {
+					k.Req = 4
+				}
+				k.Own = r.Intn(3)
+				if r.Chance(1, 3) {
+					k.Payload = "onlyexisting"
+				}
+			}
 		case 15:
 			k.J.CT = c.Pick(r, []string{"application/json", "application/pkix-cert", "text/plain", "application/jose+json; charset=utf-8"})
 		default:
